@@ -206,7 +206,7 @@ def spec_C17(lines, ghost=None):
     for i, l in enumerate(lines):
         t = tok(l)
         if t[0] != "sc": continue
-        if t[1] == "call": calls.append([t[2], False]); continue
+        if t[1] == "call": calls.append([t[2], False, t[2] in alive]); continue      # (key, entered, existed when called)
         if t[1] == "registered": present.add(t[2]); stored[t[2]] = 0; continue
         if t[1] == "revoked": present.discard(t[2]); stored[t[2]] = 0; continue
         if t[1] == "enter" and calls and body_key(calls[-1][0]) == t[2] and not calls[-1][1]:
@@ -229,7 +229,10 @@ def spec_C17(lines, ghost=None):
             key = t[2]; r = int(t[3][1:]); x = int(t[4][1:])
             reentrant = any(e[0] == key and e[3] != "once" for e in stack)   # a syscall_once run does not occupy the cache
             if key[0] == "s":
-                if key not in alive: bad.append("line %d: %s ran although it does not exist" % (i, key))
+                # existence is judged when the call is made: a command that was already pending may despawn the system
+                # between the call and its body (benign B51: an exclusive system flushes the world queue before it runs)
+                existed = calls[-1][2] if (calls and calls[-1][0] == key) else (key in alive)
+                if not existed: bad.append("line %d: %s ran although it did not exist when it was called" % (i, key))
                 if reentrant: bad.append("line %d: spawned system %s ran while running" % (i, key))
             # (same-key re-entrancy of syscall / named_syscall is the crate's documented hazard: the state such a
             #  call sees is unspecified; only the outer-most call's state persists, which is what is checked)
@@ -255,7 +258,8 @@ def spec_C17(lines, ghost=None):
                 if nk in present and not any(e[0] == nk for e in stack):
                     bad.append("line %d: named_syscall_direct of the registered idle name %s failed" % (i, nk))
             elif key[0] != "s": bad.append("line %d: %s returned an error" % (i, key))
-            elif key in alive and not any(e[0] == key for e in stack):
+            elif key in alive and not any(e[0] == key for e in stack) and not any(c[0] == key for c in calls):
+                # (a call of the same system that has been made and has not returned counts as running, entered or not)
                 bad.append("line %d: call to live idle spawned system %s failed" % (i, key))
     if stack: bad.append("unbalanced enter/ret: %r" % (stack,))
     return bad
